@@ -79,4 +79,11 @@ def utf8Len (c : Char) : Nat :=
 
 def utf8Size (s : Str) : Nat := (s.map utf8Len).sum
 
+/-- `strconv.ParseUint(s, 10, _)` without the size check: one or more ASCII digits, nothing else (no sign, no `_`
+    separators - which Lean's own `String.toNat?` accepts - no other scripts' digits) -/
+def parseUint (s : String) : Option Nat :=
+  let cs := s.toList
+  if cs.isEmpty || !cs.all (fun c => decide (48 ≤ c.toNat) && decide (c.toNat ≤ 57)) then none
+  else some (cs.foldl (fun n c => n * 10 + (c.toNat - 48)) 0)
+
 end Gleece.Text
